@@ -34,6 +34,13 @@ fn main() {
     if args[1] == "replay" {
         std::process::exit(replay::replay_file(args.get(2).map(|s| s.as_str()).unwrap_or("")));
     }
+    if args[1] == "dump-layouts" {
+        props::dump::dump();
+        return;
+    }
+    if args[1] == "c08-worker" {
+        std::process::exit(props::safety::worker(&args[2], &args[3]));
+    }
     let id = args[1].to_uppercase();
     let tier = match args.get(2).map(|s| s.as_str()).or(std::env::var("VERIF_TIER").ok().as_deref().map(|_| "")) {
         Some("thorough") => Tier::Thorough,
@@ -47,8 +54,18 @@ fn main() {
         Some(match id.as_str() {
             "C01" => props::scan::c01(&mut ctx),
             "C02" => props::scan::c02(&mut ctx),
+            "C03" => props::layouts::c03(&mut ctx),
+            "C09" => props::layouts::c09(&mut ctx),
+            "C10" => props::layouts::c10(&mut ctx),
+            "C11" => props::layouts::c11(&mut ctx),
+            "C12" => props::layouts::c12(&mut ctx),
+            "C15" => props::layouts::c15(&mut ctx),
+            "C16" => props::layouts::c16(&mut ctx),
+            "C17" => props::layouts::c17(&mut ctx),
             "C04" => props::events::c04(&mut ctx),
             "C14" => props::events::c14(&mut ctx),
+            "C08" => props::safety::c08(&mut ctx),
+            "C13" => props::xlate::c13(&mut ctx),
             "C05" => props::frame::c05(&mut ctx),
             "C06" => props::frame::c06(&mut ctx),
             "C07" => props::scan::c07(&mut ctx),
